@@ -103,6 +103,21 @@ def decl_pairs(tier):
             add("bounds: strided array overruns the base", base,
                 [field("x", [(0, 0)], T_bool(), array={"k": 3, "stride": (base + 1) // 2})],
                 [field("x", [(0, 0)], T_bool(), array={"k": 2, "stride": base - 1})])
+            # positions / strides that wrap the generator's own usize arithmetic (a generator built without overflow
+            # checks, as `cargo build --release` does, must still reject them)
+            M = 1 << 64
+            add("bounds: stride 2^64-1 wraps the bounds computation", base,
+                [field("x", [(0, 0)], T_bool(), array={"k": 2, "stride": M - 1})],
+                [field("x", [(0, 0)], T_bool(), array={"k": 2, "stride": base - 1})])
+            add("bounds: stride 2^63 times two wraps to zero", base,
+                [field("x", [(0, 1)], T_uint(2), array={"k": 3, "stride": M // 2})],
+                [field("x", [(0, 1)], T_uint(2), array={"k": 2, "stride": 2})])
+            add("bounds: stride 2^64-6 with a list", base,
+                [field("x", [(0, 0), (2, 2)], T_uint(2), array={"k": 2, "stride": M - 6})],
+                [field("x", [(0, 0), (2, 2)], T_uint(2), array={"k": 2, "stride": 1})])
+            add("bounds: single bit at 2^64-1", base, [field("x", [(M - 1, M - 1)], T_bool())], [field("x", [(top, top)], T_bool())])
+            add("bounds: range up to 2^64-1", base, [field("x", [(M - 2, M - 1)], T_uint(2))], [field("x", [(base - 2, top)], T_uint(2))])
+            add("bounds: list with a bit at 2^64-1", base, [field("x", [(0, 0), (M - 1, M - 1)], T_uint(2))], [field("x", [(0, 0), (top, top)], T_uint(2))])
             add("bounds: non-contiguous array overruns the base", base,
                 [field("x", [(0, 0), (base - 2, base - 2)], T_uint(2), array={"k": 3, "stride": 1})],
                 [field("x", [(0, 0), (base - 2, base - 2)], T_uint(2), array={"k": 2, "stride": 1})])
